@@ -197,8 +197,8 @@ new7 = '''## 7. Trusting the monitors: seeded changes
 |---|---|---|---|---|---|---|---|
 %s
 
-   Eleven further changes (C17-G, C03-K, C04-F, C03-G, C03-H, C04-L, C07-H, C03-D, C03-I, C07-C, C17-E) were caught
-   when they were seeded but are retired (`seeded_retired/`, with the reasons): six now fail regression tests that
+   Twelve further changes (C17-G, C03-K, C04-F, C03-G, C03-H, C04-L, C07-H, C05-H, C03-D, C03-I, C07-C, C17-E) were caught
+   when they were seeded but are retired (`seeded_retired/`, with the reasons): seven now fail regression tests that
    later repairs of the engine brought with them, and five no longer change the behaviour because the code they
    edit was reshaped by a repair.
 
